@@ -32,6 +32,13 @@ class SArr(_np.ndarray):
     def __deepcopy__(self, memo):
         return self.copy()
 
+    def __setitem__(self, key, value):
+        # a float ndarray parses a string assigned into it (URDF attribute text): tokens of a symbolic document
+        # denote their symbol, numerals parse as float()
+        if isinstance(value, str) and self.dtype == object:
+            value = parse_number_text(value)
+        _np.ndarray.__setitem__(self, key, value)
+
     # numpy's default any/all on object arrays use python truthiness of each cell pairwise
     def any(self, *a, **k):
         if self.dtype != object:
@@ -48,6 +55,42 @@ class SArr(_np.ndarray):
 
 
 _NUMERIC = (int, float, Fraction, _np.integer, _np.floating)
+
+
+class SymTok(str):
+    """a token '@name' of a symbolic document: text that parses (float()) to the real number bound to it"""
+    table = {}
+
+    @property
+    def sr(self):
+        try:
+            return SymTok.table[str(self).strip()]
+        except KeyError:
+            raise EngineError("unbound document token %r" % str(self))
+
+
+def parse_number_text(x):
+    """float(text) for attribute text: '@tok' -> its symbol, a numeral -> its float value"""
+    t = x.strip()
+    if t.startswith('@'):
+        return SymTok(t).sr
+    return SR.const(float(t))
+
+
+def _destring(obj):
+    if isinstance(obj, str):
+        return parse_number_text(obj)
+    if isinstance(obj, (list, tuple)):
+        return [_destring(x) for x in obj]
+    return obj
+
+
+def _has_str(obj, depth=0):
+    if isinstance(obj, str):
+        return True
+    if isinstance(obj, (list, tuple)) and depth < 4:
+        return any(_has_str(x, depth + 1) for x in obj)
+    return False
 
 
 def _lift_cell(x):
@@ -143,6 +186,8 @@ def _non_numeric(obj, depth=0):
 
 def array(obj, dtype=None, copy=True, **kw):
     kw.pop('order', None)
+    if SymTok.table and dtype is not None and not _is_int_dtype(dtype) and isinstance(obj, (list, tuple)) and _has_str(obj):
+        obj = _destring(obj)        # np.array(['1.5', '@t'], dtype=float): numpy parses the strings
     if _is_int_dtype(dtype) and not _has_sym(obj):
         return _np.array(obj, dtype=dtype, **kw)
     if _non_numeric(obj):
